@@ -189,7 +189,7 @@ func TestC10Large(t *testing.T) {
 			for i := 0; i < n+3; i++ {
 				off := uint32(i)
 				if variant == 1 && i%2 == 1 {
-					off = uint32(n + 3 + (n+3-i)) // odd pushes come from above, descending: they land in the middle of the list
+					off = uint32(n + 3 + (n + 3 - i)) // odd pushes come from above, descending: they land in the middle of the list
 				}
 				h.Ops = append(h.Ops, Op{K: opPush, Seq: h.Base + off, Typ: 1300})
 			}
